@@ -506,6 +506,33 @@ def guard_rules(repo, rep):
                      expected='threshold <= 1e-12', actual=stmt_text(loop.test))
     else:
         rep.holds('R-BOUND', key, where(f, loop), 'Newton loop: cap %s, threshold %s' % (cap, thr))
+    # leaving the loop by the pass limit is ordinary: t = tan(lat) reaches 9.5 at latitude 84, where one ulp (1.8e-15) exceeds a threshold of
+    # 1e-15, so the iterate may flip between two adjacent doubles for ever - the result is correct all the same.  A `raise` on the residual
+    # after the loop must therefore allow a few ulps of the largest t of the band
+    resid = set()
+    for c in ast.walk(loop.test):
+        if isinstance(c, ast.Compare) and isinstance(c.left, ast.Name) and isinstance(c.ops[0], (ast.Gt, ast.GtE)):
+            resid.add(c.left.id)
+    key = 'R-BOUND::geodepy/convert.py::grid2geo::non-convergence'
+    late = []
+    for st in f.node.body:
+        if getattr(st, 'lineno', 0) <= loop.lineno:
+            continue
+        for n in ast.walk(st):
+            if isinstance(n, ast.If) and any(isinstance(b, ast.Raise) for b in n.body):
+                for c in ast.walk(n.test):
+                    if isinstance(c, ast.Compare) and isinstance(c.left, ast.Name) and c.left.id in resid and isinstance(c.comparators[0], ast.Constant) \
+                            and isinstance(c.comparators[0].value, (int, float)):
+                        late.append((n, c.comparators[0].value))
+    if not late:
+        rep.holds('R-BOUND', key, where(f, loop), 'no exception is raised on the residual after the Newton loop')
+    for n, v in late:
+        if v < 8e-15:
+            rep.violated('R-BOUND', key, where(f, n), 'an exception is raised when the residual after the loop exceeds %s: one ulp of t = tan(lat) is 1.8e-15 from latitude 82.9 up, so an iterate '
+                         'that alternates between two adjacent doubles (about 2 %% of the points between 82.9 and 84 degrees) is rejected although the result is correct' % v,
+                         expected='no exception, or a tolerance of several ulps of the largest t (>= 1e-14)', actual=stmt_text(n.test))
+        else:
+            rep.holds('R-BOUND', key, where(f, n), 'non-convergence is reported only beyond %s, several ulps of the largest t' % v)
 
 
 def cm_sibling_rule(repo, rep, ctx):
